@@ -1,6 +1,6 @@
 (* C11 property theorems.  Model: Model.v (legacy = false is the code with fixes/01 and fixes/02). *)
 From OlaBase Require Import Bytes.
-From C11 Require Import Gen Model Session Lemmas Term3 E120 Complete2 SessInv SessThm Bound2.
+From C11 Require Import Gen Model Session Lemmas Term3 E120 Complete2 SessInv SessThm Bound2 Wired2.
 Local Open Scope N_scope.
 
 (* Termination, exactly-once completion and absence of the modelled hazards (dangling parent range,
@@ -77,11 +77,12 @@ Proof. exact e120_example. Qed.
                        (false, {}); m_uids, m_uids_to_mute and the bad/split sets are kept; the request in
                        flight is dropped by the line.  A Start from inside THIS callback is accepted.
      s_destroy       : ~DiscoveryAgent() = Abort(), then a new agent; (op ODestroy)
-     a Start from inside the callback run by SendDiscovery is refused (m_on_complete still set).
+     a Start from inside the callback run by SendDiscovery is accepted too (fixes/04); only a Start from
+     inside the callback of a REFUSED Start is refused again.
    For EVERY history from the initial state, with arbitrary reply bytes: no modelled hazard; no Start is
    completed twice; every Start issued so far has been completed exactly once, except the one that owns
    the running discovery, which has not been completed yet and IS completed by finitely many further
-   replies, whatever they are. *)
+   replies, whatever they are (its callback may at once start the next run). *)
 Theorem c11_sessions :
   forall ops : list op,
     (forall o, In o ops -> match o with OReply a => len (a_data a) < 4294967296 | _ => True end) ->
@@ -94,8 +95,7 @@ Theorem c11_sessions :
     (on_complete (ag ss) = true -> ~ In (owner ss) (map eid (events ss))) /\
     (on_complete (ag ss) = true ->
      forall f : nat -> answer, (forall i, len (a_data (f i)) < 4294967296) ->
-     exists k, on_complete (ag (s_replies k f ss)) = false /\
-               In (owner ss) (map eid (events (s_replies k f ss)))).
+     exists k, In (owner ss) (map eid (events (s_replies k f ss)))).
 Proof. exact sessions_w. Qed.
 Print Assumptions c11_sessions.
 
@@ -131,15 +131,16 @@ Theorem c11_destroy :
 Proof. exact destroy_w. Qed.
 Print Assumptions c11_destroy.
 
-(* a Start issued from inside the completion callback of a run that finished normally is refused and
-   completed once with (false, {}), after the outer completion *)
+(* a Start issued from inside the completion callback of a run that finished normally is accepted
+   (fixes/04: m_on_complete is cleared before the callback runs): the outer completion is recorded once
+   and the new run, owned by the next id, starts from the state the finished run left *)
 Theorem c11_nested_start :
   forall (ss : sess) (a : answer),
     on_complete (ag ss) = true -> on_complete (step false (ag ss) a) = false -> owner_act ss <> ANone ->
     events (s_reply a ss) =
-      (next_id ss, false, []) ::
       (owner ss, fst (res_of (step false (ag ss) a)), snd (res_of (step false (ag ss) a))) :: events ss /\
-    ag (s_reply a ss) = step false (ag ss) a.
+    owner (s_reply a ss) = next_id ss /\
+    ag (s_reply a ss) = init (match owner_act ss with AInc => true | _ => false end) (step false (ag ss) a).
 Proof. exact nested_w. Qed.
 Print Assumptions c11_nested_start.
 
@@ -192,6 +193,44 @@ Theorem c11_uid_consts :
 Proof. exact uid_consts_w. Qed.
 Print Assumptions c11_uid_consts.
 
+(* ---------- completeness WITHOUT the "a collision fails validation" hypothesis ----------
+   [coll A] - what the line carries when the responders A (two or more) answer the same DUB - is ANY
+   non-empty byte string that depends only on A: it may fail validation, decode as a phantom UID that is
+   not connected, or decode as a connected responder.  Full (inc = false) and incremental (inc = true)
+   discovery still return status true and exactly the connected set.  (|S| < 2^32 because
+   uids_discovered is an unsigned int; the property quantifies over 0-64 responders.) *)
+Theorem c11_complete_wired :
+  forall (S : list N) (coll : list N -> list N) (inc : bool) (s0 : st) (M0 : list N),
+    NoDup S -> (forall x, In x S -> x < 281474976710655) -> N.of_nat (length S) < 4294967296 ->
+    (forall A, (2 <= length A)%nat -> coll A <> [] /\ len (coll A) < 4294967296) ->
+    exists n e M, e_run S coll n (init inc s0) M0 = (e, M) /\
+      pending e = PIdle /\ completions e = completions s0 + 1 /\
+      result e = Some (true, uids e) /\ (forall x, In x (uids e) <-> In x S).
+Proof. exact wired_w. Qed.
+Print Assumptions c11_complete_wired.
+
+(* the instance for open-collector wiring: [coll_or A] = byte-wise OR of the DUB frames of A *)
+Theorem c11_complete_wired_or :
+  forall (S : list N) (inc : bool) (s0 : st) (M0 : list N),
+    NoDup S -> (forall x, In x S -> x < 281474976710655) -> N.of_nat (length S) < 4294967296 ->
+    exists n e M, e_run S coll_or n (init inc s0) M0 = (e, M) /\
+      pending e = PIdle /\ completions e = completions s0 + 1 /\
+      result e = Some (true, uids e) /\ (forall x, In x (uids e) <-> In x S).
+Proof. exact wired_or_w. Qed.
+Print Assumptions c11_complete_wired_or.
+
+(* what survives from one run to the next: InitDiscovery keeps m_uids (incremental only), the completion
+   counter of the model, and m_muting_uid / m_mute_attempts (both are overwritten before they are read:
+   MaybeMuteNextDevice / BranchComplete set them - that part is not proved); everything else - range
+   stack with its per-range flags, bad and split sets, mute queue, tree-corrupt flag, un-mute counter -
+   is replaced, so the next run does not depend on it *)
+Theorem c11_run_stateless :
+  forall (inc : bool) (s t : st),
+    (inc = true -> uids s = uids t) -> muting s = muting t -> mute_att s = mute_att t ->
+    completions s = completions t -> init inc s = init inc t.
+Proof. exact run_stateless_w. Qed.
+Print Assumptions c11_run_stateless.
+
 (* the limits the statement refers to are the ones of the header *)
 Theorem c11_constants :
   MAX_EMPTY_BRANCH_ATTEMPTS = 5 /\ MAX_BRANCH_FAILURES = 5 /\ MAX_MUTE_ATTEMPTS = 5 /\
@@ -241,3 +280,10 @@ Example c11_bound_example :
   let '(e, M) := e_run [7; 5; 281474976710654; 6] coll_ff 396 (init false idle0) [] in
   pending e = PIdle /\ result e = Some (true, [5; 6; 7; 281474976710654]).
 Proof. vm_compute. split; reflexivity. Qed.
+
+(* a phantom: the OR of the replies of 0000:00000001 and 0000:00000004 is a valid frame of 0000:00000005 *)
+Example c11_phantom_example :
+  decode (coll_or [1; 4]) = DValid 5 /\
+  (let '(e, M) := e_run [1; 4] coll_or 40 (init false idle0) [] in
+   result e = Some (true, [1; 4]) /\ bad e = [5]).
+Proof. exact phantom_example. Qed.
